@@ -341,3 +341,8 @@ impl Samples {
         }
     }
 }
+
+/// Text form of a component (debugging aid).
+pub fn print_wat(bytes: &[u8]) -> String {
+    wasmprinter::print_bytes(bytes).unwrap_or_else(|e| format!("<unprintable: {e}>"))
+}
